@@ -319,3 +319,16 @@ def join_def(need, branches=3):
     wf = WfDef(did, tasks)
     CATALOGUE[did] = wf
     return wf
+
+
+def parallel_roots(n=3):
+    did = "R[%d]" % n
+    if did in CATALOGUE:
+        return CATALOGUE[did]
+    tasks = {}
+    for i in range(n):
+        tasks["t%d" % i] = T([("ok", ["p%d" % i], ["u%d" % i])])
+        tasks["u%d" % i] = T()
+    wf = WfDef(did, tasks, output=["p%d" % i for i in range(n)])
+    CATALOGUE[did] = wf
+    return wf
